@@ -221,7 +221,9 @@ def main():
                                                   "built (see DESIGN.md §13 for the order); no check is registered")})
     m = {
         "version": 1,
-        "setup_cmd": "cd lean && lake build MirosModel 2>&1 | tail -5",
+        "setup_cmd": "cd lean && lake build MirosModel " + " ".join(
+            "MirosModel.Props." + f[:-5] for f in sorted(os.listdir(os.path.join(VERIF, "lean", "MirosModel", "Props")))
+            if f.endswith(".lean")) + " 2>&1 | tail -5",
         "hooks": {
             "guard": "MIROS_VERIF",
             "enable": "none needed: the harness replaces module globals of miros from outside; the guard name is reserved and unused",
